@@ -412,17 +412,25 @@ static int writer_finish_section(struct reftable_writer *w)
 				abort();
 			}
 		}
+		/* Flush the last block of this level, so the next level (if
+		 * any) indexes it too. */
+		err = writer_flush_block(w);
 		for (i = 0; i < idx_len; i++) {
 			strbuf_release(&idx[i].last_key);
 		}
 		reftable_free(idx);
+		if (err < 0)
+			return err;
+		if (w->index_len >= idx_len) {
+			/* Keys are so large that every index block holds a
+			 * single entry; more levels would never shrink. */
+			break;
+		}
 	}
 
+	/* What is left describes the top level; it must not leak into the
+	 * index of the next section. */
 	writer_clear_index(w);
-
-	err = writer_flush_block(w);
-	if (err < 0)
-		return err;
 
 	bstats = writer_reftable_block_stats(w, typ);
 	bstats->index_blocks = w->stats.idx_stats.blocks - before_blocks;
